@@ -304,6 +304,15 @@ def gen_zigzag_oracle_only(rng, basins=False):
     return [("ob_zigzag", lines)]
 
 
+def gen_medium_multi(rng):
+    """a "roof" profile of 600 nodes under the multiple-direction router: nodes with receivers in
+    two different breadth-first levels beyond level 256"""
+    n = 600
+    g = gen.Grid("profile", size=n, dx=1.0, borders=["v", "v"], cache=True, ov=[])
+    z = [float(min(i, n - 1 - i)) + (0.25 if i % 3 == 0 else 0.0) for i in range(n)]
+    return [("mdm0", [g.line(), "graph multi:" + hx(1.0), "update " + gen.hexes(z)])]
+
+
 def gen_big_oracle_only(rng, tier, kind):
     """thorough tier only: rasters of 16x16 to 40x40 nodes (many basins, hubs of large degree, long
     flow paths) judged by the independent oracle alone - the model driver is not run on them"""
@@ -339,8 +348,14 @@ def gen_big_oracle_only(rng, tier, kind):
         else:
             lines.append("basins")
         out.append(("ob_%shuge%d" % (kind, k), lines))
-    # a "coast": more than 65536 base-level nodes handed to set_base_levels (every sea node of a
-    # coastal raster), so that the root basin of the spanning tree has more than 65536 tree edges
+    out += gen_coast_oracle_only(rng, kind)
+    return out
+
+
+def gen_coast_oracle_only(rng, kind):
+    """a "coast": more than 65536 base-level nodes handed to set_base_levels (every sea node of a
+    coastal raster), so that the root basin of the spanning tree has more than 65536 tree edges"""
+    out = []
     rows, cols, sea = 300, 230, 220
     g = gen.Grid("raster", rows=rows, cols=cols, dy=1.0, dx=1.0, conn="queen", borders=["c", "c", "c", "c"], cache=True, ov=[])
     z = [0.0 if (i % cols) < sea else 1.0 + rng.random() for i in range(rows * cols)]
@@ -432,6 +447,7 @@ def gen_any_ops(rng, tier, acc=False, basins=False):
     out += gen_medium(rng, tier, lambda r: gen.resolver_ops(r) if r.random() < 0.6 else r.choice([["single"], ["multi:" + hx(1.0)]]), "mda", acc=acc, basins=basins)
     if not acc:
         out += gen_zigzag_oracle_only(rng, basins=basins)
+    out += gen_medium_multi(rng)
     return out
 
 
@@ -1075,6 +1091,8 @@ def gen_bgraph(rng, tier):
         out.append(("b%d" % k, lines))
     out += gen_mstraw(rng, tier)
     out += gen_big_oracle_only(rng, tier, "bgraph")
+    if tier != "thorough":
+        out += gen_coast_oracle_only(rng, "bgraph")     # (the thorough tier has it among the big ones)
     return out
 
 
